@@ -50,7 +50,19 @@ def main():
                     try:
                         # reference meaning: a Literal matches the values equal to one of its values (statement of C11);
                         # everything else through the real __instancecheck__
-                        if all((v in t.parameters) if type(t).__name__ == "Equals" else isinstance(v, t) for v, t in zip(vals, row)):
+                        def ok(v, t, written):
+                            import typing
+
+                            if typing.get_origin(written) is typing.Literal:
+                                # from the annotation AS WRITTEN (independent of the type object the library built for it):
+                                # values equal to one of the listed ones, within the class of the listed values
+                                lv = typing.get_args(written)
+                                if len({type(x) for x in lv}) == 1:
+                                    return isinstance(v, type(lv[0])) and v in lv
+                                return v in lv
+                            return (v in t.parameters) if type(t).__name__ == "Equals" else isinstance(v, t)
+
+                        if all(ok(v, t, wr) for v, t, wr in zip(vals, row, anns_list[hi])):
                             matches.append(hi)
                     except Exception:
                         pass
@@ -73,6 +85,52 @@ def main():
                     mixed_first = any(len({type(p) for p in getattr(t, "parameters", ())}) > 1 for row in norm for t in row if type(t).__name__ == "Equals")
                     kind = "unionbound" if got.startswith("TypeError:") or got.startswith("AttributeError") else "overlap" if want == "AMBIGUOUS" and got.startswith("h") else "bound_first_value" if mixed_first else "product" if "tuple" in label and want != "AMBIGUOUS" and got == "AMBIGUOUS" else "mismatch"
                     fail(f"{kind}[{label[:60]}]" if kind == "mismatch" else kind, family=label, values=[repr(v) for v in vals], got=got, expected=want, matching=[f"h{h}" for h in matches])
+    # value types on keyword-only parameters (alone, and next to a conditioned positional)
+    from typing import Literal
+
+    from ovld.dependent import StartsWith
+
+    for variant in ("kw_only", "kw_and_positional"):
+        ov = Ovld(name="okw")
+        if variant == "kw_only":
+            def mr(name: str, *, mode: Literal["r"]):
+                return "r"
+
+            def mw(name: str, *, mode: Literal["w"]):
+                return "w"
+
+            def ms(name: str, *, mode: StartsWith["a"]):
+                return "a*"
+
+            def mo(name: str, *, mode: str):
+                return "other"
+
+            cases = [(("f",), dict(mode="r"), "r"), (("f",), dict(mode="w"), "w"), (("f",), dict(mode="ab"), "a*"), (("f",), dict(mode="x"), "other")]
+        else:
+            def mr(name: Literal["f"], *, mode: Literal["r"]):
+                return "r"
+
+            def mw(name: str, *, mode: Literal["w"]):
+                return "w"
+
+            def ms(name: Literal["g"], *, mode: str):
+                return "a*"
+
+            def mo(name: str, *, mode: str):
+                return "other"
+
+            cases = [(("f",), dict(mode="r"), "r"), (("h",), dict(mode="r"), "other"), (("f",), dict(mode="w"), "w"), (("g",), dict(mode="x"), "a*"), (("h",), dict(mode="x"), "other")]
+        for g_ in (mr, mw, ms, mo):
+            ov.register(g_)
+        for a_, k_, want in cases:
+            n += 1
+            try:
+                got = ov(*a_, **k_)
+            except TypeError as e:
+                s_ = str(e)
+                got = "AMBIGUOUS" if s_.startswith("Ambiguous") else "NOMETHOD" if s_.startswith("No method") else f"TypeError:{s_[:50]}"
+            if got != want:
+                fail(f"keyword_only_value_types[{variant}]", call=[list(a_), k_], got=got, expected=want)
     print(json.dumps(dict(evaluations=n, failing=list(failing.values()))))
     return 1 if failing else 0
 
